@@ -8,6 +8,15 @@ anchored code of the path machinery:
   do_n                      -> checked to be `self.curpath = []`
   do_re                     -> rePath (the five appended segments)
   process_page              -> pageCtm (Rotate -> initial CTM table)
+  do_W do_W_a               -> checked to have an empty body (docstring only): clipping does not paint
+  converter.PDFLayoutAnalyzer.paint_path (the straight-line tests of the single-sub-path branch):
+      `len(shape) > K and shape[-N:] == S and pts[-i] == pts[j]`, `shape = shape[:-M] + T; pts.pop()`
+                                            -> redundantMinLen, redundantSuffix, redundantPts, redundantCut, redundantTail
+      `shape in {..}` (line) / `shape in {..}` (rectangle)  -> lineShapes, rectShapes
+      `LTLine(.., pts[i], pts[j], ..)`                      -> linePts
+      `is_closed_loop = pts[i] == pts[j]`                   -> closedLoopPts
+      `has_square_coordinates = (..) or (..)`               -> has_square_coordinates
+      `LTRect(.., (*pts[i], *pts[j]), ..)`, `rect.pts = pts[:K]` -> rectCorners, rectPtsTake
 """
 import ast
 import os
@@ -178,8 +187,219 @@ def page_ctm(fn: ast.FunctionDef) -> str:
     return "def pageCtm (rotate : Int) (x0 y0 x1 y1 : Rat) : Matrix :=\n  " + "\n  else ".join(out) + "\n"
 
 
+# --------------------------------------------------------------------------- converter.paint_path
+
+def _name(e, ident=None):
+    return isinstance(e, ast.Name) and (ident is None or e.id == ident)
+
+
+def _int(e):
+    if isinstance(e, ast.Constant) and isinstance(e.value, int) and not isinstance(e.value, bool):
+        return e.value
+    if isinstance(e, ast.UnaryOp) and isinstance(e.op, ast.USub):
+        v = _int(e.operand)
+        return None if v is None else -v
+    return None
+
+
+def _pts_index(e, var="pts"):
+    """pts[K] -> K (may be negative)"""
+    if isinstance(e, ast.Subscript) and _name(e.value, var) and not isinstance(e.slice, ast.Slice):
+        return _int(e.slice)
+    return None
+
+
+def chars(s: str) -> str:
+    if not s or not all(c.isalnum() for c in s):
+        raise P.Untranslatable("shape string outside [a-zA-Z0-9]+: %r" % s)
+    return "[" + ", ".join("'%s'" % c for c in s) + "]"
+
+
+def shape_set(test) -> list:
+    """`shape in {"a", "b"}` -> ["a", "b"]"""
+    if not (isinstance(test, ast.Compare) and len(test.ops) == 1 and isinstance(test.ops[0], ast.In) and
+            _name(test.left, "shape") and isinstance(test.comparators[0], (ast.Set, ast.Tuple, ast.List))):
+        raise P.Untranslatable("paint_path: test is not `shape in {...}`")
+    elts = test.comparators[0].elts
+    if not all(isinstance(x, ast.Constant) and isinstance(x.value, str) for x in elts):
+        raise P.Untranslatable("paint_path: shape set is not a set of string literals")
+    return [x.value for x in elts]
+
+
+def eq_expr(e, names) -> str:
+    """The boolean expression of has_square_coordinates over the coordinate names."""
+    if isinstance(e, ast.BoolOp):
+        op = " ∧ " if isinstance(e.op, ast.And) else " ∨ "
+        return "(" + op.join(eq_expr(v, names) for v in e.values) + ")"
+    if isinstance(e, ast.Compare) and len(e.ops) == 1 and isinstance(e.ops[0], ast.Eq) and \
+            _name(e.left) and e.left.id in names and _name(e.comparators[0]) and e.comparators[0].id in names:
+        return f"({e.left.id} = {e.comparators[0].id})"
+    raise P.Untranslatable("has_square_coordinates: expression outside the subset: " + ast.dump(e))
+
+
+def paint_path_tests(fn: ast.FunctionDef) -> str:
+    out = []
+    # ---- the redundant closing `l`
+    red = None
+    chain = None
+    for s in ast.walk(fn):
+        if isinstance(s, ast.If) and isinstance(s.test, ast.BoolOp) and isinstance(s.test.op, ast.And) and \
+                len(s.test.values) == 3 and isinstance(s.test.values[0], ast.Compare) and \
+                isinstance(s.test.values[0].left, ast.Call) and _name(s.test.values[0].left.func, "len"):
+            if red is not None:
+                raise P.Untranslatable("paint_path: two redundant-l tests")
+            red = s
+        if isinstance(s, ast.If) and isinstance(s.test, ast.Compare) and isinstance(s.test.ops[0], ast.In) and \
+                _name(s.test.left, "shape") and chain is None:
+            chain = s
+    if red is None or chain is None:
+        raise P.Untranslatable("paint_path: redundant-l test / classification chain not found")
+    t0, t1, t2 = red.test.values
+    if not (len(t0.ops) == 1 and isinstance(t0.ops[0], ast.Gt) and len(t0.left.args) == 1 and
+            _name(t0.left.args[0], "shape") and _int(t0.comparators[0]) is not None and _int(t0.comparators[0]) >= 0):
+        raise P.Untranslatable("paint_path: not `len(shape) > K`")
+    if not (isinstance(t1, ast.Compare) and len(t1.ops) == 1 and isinstance(t1.ops[0], ast.Eq) and
+            isinstance(t1.left, ast.Subscript) and _name(t1.left.value, "shape") and
+            isinstance(t1.left.slice, ast.Slice) and t1.left.slice.upper is None and t1.left.slice.step is None and
+            isinstance(t1.comparators[0], ast.Constant) and isinstance(t1.comparators[0].value, str)):
+        raise P.Untranslatable("paint_path: not `shape[-N:] == S`")
+    suffix = t1.comparators[0].value
+    if _int(t1.left.slice.lower) != -len(suffix):
+        raise P.Untranslatable("paint_path: `shape[-N:] == S` with N != len(S)")
+    if not (isinstance(t2, ast.Compare) and len(t2.ops) == 1 and isinstance(t2.ops[0], ast.Eq)):
+        raise P.Untranslatable("paint_path: not `pts[-i] == pts[j]`")
+    i, j = _pts_index(t2.left), _pts_index(t2.comparators[0])
+    if i is None or j is None or i >= 0 or j < 0:
+        raise P.Untranslatable("paint_path: not `pts[-i] == pts[j]`")
+    b = red.body
+    ok = (len(b) == 2 and not red.orelse and isinstance(b[0], ast.Assign) and _name(b[0].targets[0], "shape") and
+          isinstance(b[0].value, ast.BinOp) and isinstance(b[0].value.op, ast.Add) and
+          isinstance(b[0].value.left, ast.Subscript) and _name(b[0].value.left.value, "shape") and
+          isinstance(b[0].value.left.slice, ast.Slice) and b[0].value.left.slice.lower is None and
+          b[0].value.left.slice.step is None and _int(b[0].value.left.slice.upper) is not None and
+          _int(b[0].value.left.slice.upper) < 0 and
+          isinstance(b[0].value.right, ast.Constant) and isinstance(b[0].value.right.value, str) and
+          isinstance(b[1], ast.Expr) and isinstance(b[1].value, ast.Call) and not b[1].value.args and
+          isinstance(b[1].value.func, ast.Attribute) and b[1].value.func.attr == "pop" and
+          _name(b[1].value.func.value, "pts"))
+    if not ok:
+        raise P.Untranslatable("paint_path: redundant-l body is not `shape = shape[:-M] + T; pts.pop()`")
+    out.append("/-- `len(shape) > redundantMinLen and shape[-N:] == redundantSuffix and pts[-i] == pts[j]`, "
+               "redundantPts = (i, j). -/\n")
+    out.append(f"def redundantMinLen : Nat := {_int(t0.comparators[0])}\n")
+    out.append(f"def redundantSuffix : List Char := {chars(suffix)}\n")
+    out.append(f"def redundantPts : Nat × Nat := ({-i}, {j})\n")
+    out.append("/-- `shape = shape[:-redundantCut] + redundantTail; pts.pop()`. -/\n")
+    out.append(f"def redundantCut : Nat := {-_int(b[0].value.left.slice.upper)}\n")
+    out.append(f"def redundantTail : List Char := {chars(b[0].value.right.value)}\n\n")
+    # ---- line / rectangle / curve
+    line_set = shape_set(chain.test)
+    if not (len(chain.orelse) == 1 and isinstance(chain.orelse[0], ast.If)):
+        raise P.Untranslatable("paint_path: no elif after the line test")
+    rect_if = chain.orelse[0]
+    rect_set = shape_set(rect_if.test)
+
+    def ctor_call(stmts, var, cls):
+        for s in stmts:
+            if isinstance(s, ast.Assign) and _name(s.targets[0], var) and isinstance(s.value, ast.Call) and \
+                    _name(s.value.func, cls):
+                return s.value
+        raise P.Untranslatable(f"paint_path: `{var} = {cls}(...)` not found")
+
+    def std_args(call, first_rest):
+        """(linewidth, <geometry...>, stroke, fill, evenodd, scolor, ncolor, path, dash) in the usual order."""
+        def gattr(e, a):
+            return isinstance(e, ast.Attribute) and e.attr == a and _name(e.value, "gstate")
+        args = list(call.args)
+        kw = {k.arg: k.value for k in call.keywords}
+        if not gattr(args[0], "linewidth"):
+            raise P.Untranslatable("paint_path: first constructor argument is not gstate.linewidth")
+        rest = args[first_rest:]
+        if len(rest) < 5 or not (_name(rest[0], "stroke") and _name(rest[1], "fill") and _name(rest[2], "evenodd")
+                                 and gattr(rest[3], "scolor") and gattr(rest[4], "ncolor")):
+            raise P.Untranslatable("paint_path: constructor flags/colours are not stroke, fill, evenodd, "
+                                   "gstate.scolor, gstate.ncolor")
+        path = rest[5] if len(rest) > 5 else kw.get("original_path")
+        dash = rest[6] if len(rest) > 6 else kw.get("dashing_style")
+        if not (_name(path, "transformed_path") and gattr(dash, "dash")):
+            raise P.Untranslatable("paint_path: original_path / dashing_style arguments")
+
+    line = ctor_call(chain.body, "line", "LTLine")
+    li, lj = _pts_index(line.args[1]), _pts_index(line.args[2])
+    if li is None or lj is None or li < 0 or lj < 0:
+        raise P.Untranslatable("paint_path: LTLine end points are not pts[i], pts[j]")
+    std_args(line, 3)
+    out.append("/-- `shape in {...}`: a single straight segment; `LTLine(.., pts[i], pts[j], ..)`. -/\n")
+    out.append("def lineShapes : List (List Char) := [" + ", ".join(chars(x) for x in line_set) + "]\n")
+    out.append(f"def linePts : Nat × Nat := ({li}, {lj})\n\n")
+    # rectangle branch
+    rb = rect_if.body
+    names = ["x0", "y0", "x1", "y1", "x2", "y2", "x3", "y3"]
+    d = rb[0]
+    ok = (isinstance(d, ast.Assign) and isinstance(d.targets[0], ast.Tuple) and _name(d.value, "pts") and
+          len(d.targets[0].elts) == 5 and
+          all(isinstance(t, ast.Tuple) and len(t.elts) == 2 and _name(t.elts[0], names[2 * k]) and
+              _name(t.elts[1], names[2 * k + 1]) for k, t in enumerate(d.targets[0].elts[:4])) and
+          _name(d.targets[0].elts[4]))
+    if not ok:
+        raise P.Untranslatable("paint_path: not `(x0, y0), (x1, y1), (x2, y2), (x3, y3), _ = pts`")
+    cl = sq = None
+    for s in rb[1:]:
+        if isinstance(s, ast.Assign) and _name(s.targets[0], "is_closed_loop"):
+            cl = s.value
+        if isinstance(s, ast.Assign) and _name(s.targets[0], "has_square_coordinates"):
+            sq = s.value
+    if cl is None or sq is None:
+        raise P.Untranslatable("paint_path: is_closed_loop / has_square_coordinates not found")
+    if not (isinstance(cl, ast.Compare) and len(cl.ops) == 1 and isinstance(cl.ops[0], ast.Eq)):
+        raise P.Untranslatable("paint_path: is_closed_loop is not pts[i] == pts[j]")
+    ci, cj = _pts_index(cl.left), _pts_index(cl.comparators[0])
+    if ci is None or cj is None or ci < 0 or cj < 0:
+        raise P.Untranslatable("paint_path: is_closed_loop is not pts[i] == pts[j]")
+    inner = [s for s in rb if isinstance(s, ast.If)]
+    if len(inner) != 1 or not (isinstance(inner[0].test, ast.BoolOp) and isinstance(inner[0].test.op, ast.And) and
+                               len(inner[0].test.values) == 2 and _name(inner[0].test.values[0], "is_closed_loop") and
+                               _name(inner[0].test.values[1], "has_square_coordinates")):
+        raise P.Untranslatable("paint_path: not `if is_closed_loop and has_square_coordinates:`")
+    rect = ctor_call(inner[0].body, "rect", "LTRect")
+    bb = rect.args[1]
+    if not (isinstance(bb, ast.Tuple) and len(bb.elts) == 2 and all(isinstance(x, ast.Starred) for x in bb.elts)):
+        raise P.Untranslatable("paint_path: LTRect bbox is not (*pts[i], *pts[j])")
+    ri, rj = _pts_index(bb.elts[0].value), _pts_index(bb.elts[1].value)
+    if ri is None or rj is None or ri < 0 or rj < 0:
+        raise P.Untranslatable("paint_path: LTRect bbox is not (*pts[i], *pts[j])")
+    std_args(rect, 2)
+    take = None
+    for s in inner[0].body:
+        if isinstance(s, ast.Assign) and isinstance(s.targets[0], ast.Attribute) and s.targets[0].attr == "pts" and \
+                _name(s.targets[0].value, "rect"):
+            v = s.value
+            if isinstance(v, ast.Subscript) and _name(v.value, "pts") and isinstance(v.slice, ast.Slice) and \
+                    v.slice.lower is None and v.slice.step is None and _int(v.slice.upper) is not None and \
+                    _int(v.slice.upper) >= 0:
+                take = _int(v.slice.upper)
+    if take is None:
+        raise P.Untranslatable("paint_path: `rect.pts = pts[:K]` not found")
+    for branch, what in ((inner[0].orelse, "non-rectangle"), (rect_if.orelse, "general")):
+        c = ctor_call(branch, "curve", "LTCurve")
+        if not _name(c.args[1], "pts"):
+            raise P.Untranslatable(f"paint_path: {what} LTCurve does not take pts")
+        std_args(c, 2)
+    out.append("/-- `shape in {...}`: four straight segments, closed. -/\n")
+    out.append("def rectShapes : List (List Char) := [" + ", ".join(chars(x) for x in rect_set) + "]\n")
+    out.append("/-- `is_closed_loop = pts[i] == pts[j]`. -/\n")
+    out.append(f"def closedLoopPts : Nat × Nat := ({ci}, {cj})\n")
+    out.append("/-- `has_square_coordinates` over `(x0, y0), (x1, y1), (x2, y2), (x3, y3), _ = pts`. -/\n")
+    out.append("def has_square_coordinates (" + " ".join(names) + " : Rat) : Bool :=\n  decide " +
+               eq_expr(sq, set(names)) + "\n")
+    out.append("/-- `LTRect(.., (*pts[i], *pts[j]), ..)` and `rect.pts = pts[:rectPtsTake]`. -/\n")
+    out.append(f"def rectCorners : Nat × Nat := ({ri}, {rj})\n")
+    out.append(f"def rectPtsTake : Nat := {take}\n")
+    return "".join(out)
+
+
 def generate(lean_dir: str):
-    out = [P.HEADER.format(src="pdfminer/utils.py, pdfcolor.py, pdfinterp.py", ns="PathsGen")]
+    out = [P.HEADER.format(src="pdfminer/utils.py, pdfcolor.py, pdfinterp.py, converter.py", ns="PathsGen")]
     # --- matrix helpers
     um = P.parse_file("pdfminer/utils.py")
     known = {}
@@ -232,9 +452,26 @@ def generate(lean_dir: str):
     if not (len(b) == 1 and is_clear_curpath(b[0])):
         raise P.Untranslatable("do_n is not `self.curpath = []`")
     out.append("/-- `do_n` is exactly `self.curpath = []`. -/\ndef nClearsPath : Bool := true\n\n")
+    for w in ("do_W", "do_W_a"):
+        if w not in methods or body_wo_doc(methods[w]) not in ([],) and \
+                not all(isinstance(x, ast.Pass) for x in body_wo_doc(methods[w])):
+            raise P.Untranslatable(f"{w} is not an empty method (docstring / pass only)")
+    out.append("/-- `do_W` and `do_W_a` have an empty body: clipping neither paints nor touches the path. -/\n"
+               "def clipIsNoOp : Bool := true\n\n")
     out.append(re_path(methods["do_re"]))
     out.append("\n")
     out.append(page_ctm(methods["process_page"]))
+    out.append("\n")
+    conv = P.parse_file("pdfminer/converter.py")
+    pp = None
+    for node in conv.body:
+        if isinstance(node, ast.ClassDef) and node.name == "PDFLayoutAnalyzer":
+            for n in node.body:
+                if isinstance(n, ast.FunctionDef) and n.name == "paint_path":
+                    pp = n
+    if pp is None:
+        raise P.Untranslatable("PDFLayoutAnalyzer.paint_path not found")
+    out.append(paint_path_tests(pp))
     out.append("\nend PdfVerif.Gen.PathsGen\n")
     path = os.path.join(lean_dir, "PdfVerif", "Gen", "PathsGen.lean")
     P.write_if_changed(path, "".join(out))
